@@ -99,6 +99,7 @@ type World struct {
 	Cmds      []*CmdResult
 	Seen      map[string][]TargetSeen
 	Crashes   []CrashCopy
+	CrashResults []crashResult
 	Obs       []*Observation
 	Logs      []map[string]any
 	tids      map[*server.Target]string
@@ -212,6 +213,8 @@ func NewWorld(sc *Scenario, s *Sim, h *History) *World {
 	slog.SetDefault(slog.New(&captureHandler{w: w}))
 	s.namer = w.nameFor
 	s.onStep = w.onStep
+	w.CrashOn = sc.Params["crash"] != 0
+	s.AddSection("snapshot.lock", "snapshot.unlocked")
 	for _, ts := range sc.Targets {
 		w.AddTarget(ts)
 	}
@@ -592,6 +595,9 @@ func (w *World) doCommand(actor string, idx int, op *Op) {
 	}
 	res.RetT = w.S.Now()
 	res.Ret = w.H.Add(e)
+	if w.CrashOn {
+		w.copyState(res.Ret, "cmd.ret", ri.Name)
+	}
 	w.S.NotePoint("cmd.ret")
 	w.mu.Lock()
 	w.bumpPointLocked("cmd.ret")
